@@ -112,14 +112,15 @@ def df_group(inp, W):
             seen.append([x for x in d.rid])
             return d.nrow
         out = data.group_by(*by).aggregate(k=probe, n=di.count())
-        return {"out": out, "seen": seen}
+        return {"out": out, "seen": seen, "recv": data, "alias": _frame_alias(W, out, data)}
     if mode == "count":
-        return {"out": data.count(*by)}
+        out = data.count(*by)
+        return {"out": out, "recv": data, "alias": _frame_alias(W, out, data)}
     if mode == "split":
         return {"out": [list(x) for x in data.split(*by)]}
     if mode == "modify":
         out = data.group_by(*by).modify(size=lambda d: d.nrow, first=lambda d: d.rid[0])
-        return {"out": out}
+        return {"out": out, "recv": data, "alias": _frame_alias(W, out, data)}
     if mode == "helper":
         out = data.group_by(*by).aggregate(
             a1=di.mean("v"), a2=lambda d: di.mean(d.v),
@@ -137,3 +138,181 @@ def df_join(inp, W):
     by = [x if isinstance(x, str) else tuple(x) for x in inp["by"]]
     out = getattr(a, inp["kind"])(b, *by)
     return {"out": out, "a": a, "b": b, "alias": _frame_alias(W, out, a, b)}
+
+# ---------------------------------------------------------------------------- C11 Vector sort / rank / unique
+
+@op
+def vec_op(inp, W):
+    v = inp["v"]
+    m = inp["method"]
+    if m == "sort":
+        out = v.sort(dir=inp["dir"])
+    elif m == "rank":
+        out = v.rank(method=inp["rank_method"])
+    elif m == "unique":
+        out = v.unique()
+    else:
+        raise ValueError(m)
+    return {"out": out, "recv": v, "alias": W.shares(out, v)}
+
+# ---------------------------------------------------------------------------- C09 combining / reshaping
+
+@op
+def df_reshape(inp, W):
+    data = inp["data"]
+    m = inp["method"]
+    others = inp.get("others", [])
+    if m == "rbind":
+        out = data.rbind(*others)
+    elif m == "cbind":
+        out = data.cbind(*others)
+    elif m == "update":
+        out = data.update(others[0])
+    elif m == "modify":
+        kw = {}
+        for name, how, value in inp["values"]:
+            if how == "callable":
+                kw[name] = (lambda v: (lambda d: v))(value)
+            else:
+                kw[name] = value
+        out = data.modify(**kw)
+    elif m == "select":
+        out = data.select(*inp["names"])
+    elif m == "unselect":
+        out = data.unselect(*inp["names"])
+    elif m == "rename":
+        out = data.rename(**{to: fm for to, fm in inp["pairs"]})
+    elif m == "colnames":
+        data.colnames = inp["names"]
+        return {"out": data, "recv": None, "others": others, "alias": []}
+    else:
+        raise ValueError(m)
+    return {"out": out, "recv": data, "others": others, "alias": _frame_alias(W, out, data, *others)}
+
+# ---------------------------------------------------------------------------- C06 remaining non-in-place methods
+
+@op
+def vec_misc(inp, W):
+    v = inp["v"]; m = inp["method"]
+    others = []
+    if m in ("head", "tail"): out = getattr(v, m)(inp["n"])
+    elif m == "drop_na": out = v.drop_na()
+    elif m == "replace_na": out = v.replace_na(inp["value"])
+    elif m == "concat":
+        others = [inp["other"]]
+        out = v.concat(inp["other"])
+    elif m in ("as_float", "as_object", "as_boolean", "as_string", "as_integer"): out = getattr(v, m)()
+    elif m == "sample":
+        draw = inp["draw"]
+        orig = W.np.random.choice
+        W.np.random.choice = lambda n, size=None, replace=True: draw
+        try:
+            out = v.sample(inp["n"])
+        finally:
+            W.np.random.choice = orig
+    elif m == "tolist":
+        out = v.tolist()
+        return {"out": out, "recv": v, "others": others, "alias": False}
+    elif m == "equal":
+        others = [inp["other"]]
+        out = v.equal(inp["other"])
+        return {"out": out, "recv": v, "others": others, "alias": False}
+    else:
+        raise ValueError(m)
+    alias = W.shares(out, v) or any(W.shares(out, o) for o in others)
+    return {"out": out, "recv": v, "others": others, "alias": alias}
+
+@op
+def df_misc(inp, W):
+    data = inp["data"]; m = inp["method"]
+    if m == "deepcopy": out = data.deepcopy()
+    elif m == "copy": out = data.copy()
+    elif m == "to_list_of_dicts":
+        out = data.to_list_of_dicts()
+        return {"out": out, "recv": data, "alias": []}
+    elif m == "map":
+        out = data.map(lambda d, i: d.rid[i])
+        return {"out": out, "recv": data, "alias": []}
+    elif m == "geo_to_data_frame":
+        out = data.to_data_frame(drop_geometry=inp["drop_geometry"])
+    else:
+        raise ValueError(m)
+    return {"out": out, "recv": data, "alias": _frame_alias(W, out, data)}
+
+# ---------------------------------------------------------------------------- C01 well-formedness
+
+C01_POOL = ["a", "b", "a b", "items", "nrow", "filter", "colnames"]
+
+def _observe(W, f):
+    di = W.di
+    cols = list(dict.items(f))
+    rep = {"names": [k for k, _ in cols],
+           "classes": [type(v).__name__ for _, v in cols],
+           "ndims": [int(getattr(v, "ndim", -1)) for _, v in cols],
+           "lens": [int(len(v)) if getattr(v, "ndim", 0) >= 1 else -1 for _, v in cols]}
+    empty_attrs = set(dir(di.DataFrame()))
+    attr = {}
+    for p in C01_POOL:
+        has = hasattr(f, p)
+        inf = p in f
+        same = bool(has and inf and (getattr(f, p) is f[p]))
+        attr[p] = [bool(inf), bool(has), same, p in empty_attrs]
+    rep["attr"] = attr
+    try:
+        rep["nrow"] = int(f.nrow)
+    except Exception as e:
+        rep["nrow"] = type(e).__name__
+    return rep
+
+def _mkvalue(W, spec):
+    kind, n, v = spec
+    if kind == "scalar": return v
+    if kind == "list": return [v] * n
+    if kind == "array": return W.np.array([v] * n, dtype=float)
+    if kind == "column": return W.di.DataFrameColumn([v] * n, float)
+    raise ValueError(kind)
+
+@op
+def df_history(inp, W):
+    di = W.di
+    obs = []
+    try:
+        f = di.DataFrame(**{name: (val if not isinstance(val, list) or not val or not isinstance(val[0], str) or val[0] not in ("scalar", "list", "array", "column") else _mkvalue(W, val))
+                            for name, val in inp["init"]})
+    except Exception as e:
+        return {"init": type(e).__name__, "obs": []}
+    obs.append(["init", "ok", _observe(W, f)])
+    for st in inp["steps"]:
+        o = st["op"]
+        try:
+            if o == "setitem": f[st["name"]] = _mkvalue(W, st["value"])
+            elif o == "setattr": setattr(f, st["name"], _mkvalue(W, st["value"]))
+            elif o == "delitem": del f[st["name"]]
+            elif o == "delattr": delattr(f, st["name"])
+            elif o == "pop": f.pop(st["name"])
+            elif o == "popitem": f.popitem()
+            elif o == "colnames": f.colnames = st["names"]
+            elif o == "filter": f = f.filter(st["mask"])
+            elif o == "sort": f = f.sort(**{st["name"]: st["dir"]})
+            elif o == "unique": f = f.unique(*st["names"])
+            elif o == "select": f = f.select(*st["names"])
+            elif o == "unselect": f = f.unselect(*st["names"])
+            elif o == "rename": f = f.rename(**{st["to"]: st["name"]})
+            elif o == "head": f = f.head(st["n"])
+            elif o == "slice": f = f.slice(rows=st["rows"])
+            elif o == "modify": f = f.modify(**{st["name"]: _mkvalue(W, st["value"])})
+            elif o == "cbind": f = f.cbind(di.DataFrame(**{st["name"]: _mkvalue(W, st["value"])}))
+            elif o == "rbind": f = f.rbind(f)
+            elif o == "copy": f = f.copy()
+            elif o == "deepcopy": f = f.deepcopy()
+            elif o == "drop_na": f = f.drop_na(*st["names"])
+            elif o == "left_join": f = f.left_join(f.rename(zz=st["other"]), st["name"]) if st["other"] != st["name"] else f.left_join(f, st["name"])
+            elif o == "count": f = f.count(st["name"])
+            elif o == "to_lod_back": f = f.to_list_of_dicts().to_data_frame()
+            else: raise RuntimeError("unknown step " + o)
+            status = "ok"
+        except Exception as e:
+            if isinstance(e, RuntimeError): raise
+            status = type(e).__name__
+        obs.append([o, status, _observe(W, f)])
+    return {"init": "ok", "obs": obs}
